@@ -66,6 +66,21 @@ def _cov(model, k):
     return cands[k % len(cands)]
 
 
+def _occ(model, k):
+    df = model.dataset
+    cands = []
+    if df is not None:
+        for c in df.columns:
+            if c in ('ID', 'TIME', 'AMT', 'DV', 'MDV', 'EVID', 'RATE', 'CMT') or model.datainfo[c].drop:
+                continue
+            vals = df[c].unique()
+            if 2 <= len(vals) <= 6 and all(float(v).is_integer() for v in vals):
+                cands.append(c)
+    if not cands:
+        raise Reject('no occasion-like column')
+    return cands[k % len(cands)]
+
+
 def _eta(model, k):
     names = model.random_variables.etas.names
     if not names:
@@ -114,7 +129,7 @@ def table():
         ('add_metabolite', lambda m, a, b: pm.add_metabolite(m)),
         ('add_effect_compartment', lambda m, a, b: pm.add_effect_compartment(m, ['linear', 'emax', 'sigmoid'][a % 3])),
         ('set_power_on_ruv', lambda m, a, b: pm.set_power_on_ruv(m)),
-        ('add_iov', lambda m, a, b: pm.add_iov(m, _cov(m, a), [_eta(m, b)])),
+        ('add_iov', lambda m, a, b: pm.add_iov(m, _occ(m, a), [_eta(m, b)])),
     ]
     return T
 
@@ -203,8 +218,11 @@ def check_semantics(model, tm, spec_k, ctx, classes):
                 cands.append(d)
     if ode is None:
         cands = [{}]
-    nsamples = 0
-    failures = None
+    dvs = [(str(k), v) for k, v in model.dependent_variables.items()]
+    try:
+        dvid_col = model.datainfo.typeix['dvid'][0].name
+    except IndexError:
+        dvid_col = 'DVID'
     samples = []
     for k in range(10):
         if len(samples) >= 3:
@@ -222,19 +240,21 @@ def check_semantics(model, tm, spec_k, ctx, classes):
         used = 0
         for point, mv, theta, eta, eps, data in samples:
             amounts = {sigma[c]: point.amounts[c] for c in cnames}
-            try:
-                if tm.branch_margin(theta, eta, eps, data, amounts) < 1e-7:
-                    continue
-                tv = tm.evaluate(theta, eta, eps, data, amounts)
-            except R.UndefinedVariable as u:
-                fail = ('code:undefined-variable', str(u), None)
-                break
-            except (OverflowError, ValueError, ZeroDivisionError):
-                continue
-            if tv['nonfinite']:
-                continue
-            used += 1
-            fail = compare_values(model, mv, tv, tm, sigma, cnames)
+            if mv.undefined and any(v is modeleval.UNDEF for v in list(mv.rhs.values()) + list(mv.y.values())):
+                continue  # the in-memory model has no value at this input (conditionally assigned variable)
+            fail = None
+            for dvname, dvid in dvs:
+                data_ = dict(data)
+                if len(dvs) > 1:
+                    data_[dvid_col] = float(dvid)
+                fail = self_eval(tm, mv, model, sigma, cnames, theta, eta, eps, data_, amounts, dvname if len(dvs) > 1 else None)
+                if fail == 'skip':
+                    fail = None
+                    break
+                if fail:
+                    break
+            else:
+                used += 1
             if fail:
                 break
         if fail is None:
@@ -249,18 +269,41 @@ def check_semantics(model, tm, spec_k, ctx, classes):
     raise Violation(clause, observed=obs, expected=exp, detail=ctx)
 
 
-def compare_values(model, mv, tv, tm, sigma, cnames):
+def self_eval(tm, mv, model, sigma, cnames, theta, eta, eps, data, amounts, dvname):
+    """-> None (agree) | 'skip' (sample unusable) | (clause, observed, expected)"""
+    try:
+        if tm.branch_margin(theta, eta, eps, data, amounts) < 1e-7:
+            return 'skip'
+        tv = tm.evaluate(theta, eta, eps, data, amounts)
+    except R.UndefinedVariable as u:
+        if mv.undefined:
+            return 'skip'
+        return ('code:undefined-variable', str(u), None)
+    except KeyError as ke:
+        return (f'code:required-pk-parameter-not-defined:ADVAN{tm.advan}-TRANS{tm.trans}', str(ke), None)
+    except R.Unsupported as us:
+        return ('code:not-interpretable', str(us), None)
+    except (OverflowError, ValueError, ZeroDivisionError):
+        return 'skip'
+    if tv['nonfinite']:
+        return 'skip'
+    return compare_values(model, mv, tv, tm, sigma, cnames, dvname)
+
+
+def compare_values(model, mv, tv, tm, sigma, cnames, dvname=None):
     # right-hand sides
     for c in cnames:
         a = mv.rhs.get(c)
         b = tv['rhs'].get(sigma[c])
         if a is modeleval.UNDEF:
-            return ('model:undefined-symbol-in-ode', mv.undefined, None)
+            return 'skip'
         if b is None or not close(a, b, rtol=1e-9, atol=1e-12):
             return (f'semantics:ode-rhs', b, a)
     pk = tv['pk']
     # lag / bioavailability / rate / duration indices
     for c in cnames:
+        if c not in mv.doses:
+            continue  # ALAGn / Fn only act on doses entering compartment n
         n = sigma[c]
         if c in mv.lag and not close(mv.lag[c], pk.get(f'ALAG{n}', 0.0), rtol=1e-9):
             return ('semantics:lag-time-index', pk.get(f'ALAG{n}', 0.0), mv.lag[c])
@@ -287,15 +330,27 @@ def compare_values(model, mv, tv, tm, sigma, cnames):
     # every variable that both sides define under the same name, and Y
     tvars = dict(tv['pk'])
     tvars.update(tv.get('err', {}))
+    dvnames = {str(k).upper() for k in model.dependent_variables}
     for name, val in mv.vars.items():
         u = name.upper()
+        if dvname is not None and u in dvnames:
+            continue  # with several DVs the generated code overwrites Y per DVID
         if u in tvars and u not in tm_data_names(tm) and val is not modeleval.UNDEF:
             if not close(val, tvars[u], rtol=1e-9, atol=1e-12):
                 return (f'semantics:variable', (name, tvars[u]), (name, val))
+    if dvname is not None:
+        val = mv.y.get(dvname, modeleval.UNDEF)
+        if val is modeleval.UNDEF:
+            return 'skip'
+        if 'Y' not in tvars:
+            return ('code:dependent-variable-missing', sorted(tvars)[:20], 'Y')
+        if not close(val, tvars['Y'], rtol=1e-9, atol=1e-12):
+            return ('semantics:dependent-variable[DVID]', tvars['Y'], (dvname, val))
+        return None
     for name, val in mv.y.items():
         u = name.upper()
         if val is modeleval.UNDEF:
-            return ('model:undefined-dependent-variable', mv.undefined, None)
+            return 'skip'
         if u not in tvars:
             return ('code:dependent-variable-missing', sorted(tvars)[:20], u)
         if not close(val, tvars[u], rtol=1e-9, atol=1e-12):
@@ -365,20 +420,28 @@ def run_case(spec):
         try:
             with warnings.catch_warnings():
                 warnings.simplefilter('ignore')
-                new = guard(fn, model, a, b, allowed=DOC_REFUSALS, clause=f'transform:{name}')
-        except Reject:
-            classes.append(f'refused:{name}')
+                new = guard(fn, model, a, b, allowed=DOC_REFUSALS, clause=f'transform:{name}', internal_is_violation=False)
+        except Reject as r:
+            # the property quantifies over transformations that succeed; refusals and internal errors of the
+            # transformation itself (other properties) drop the step
+            classes.append(('refused:' if ': ' in (r.why or '') else 'internal-error:') + name)
             continue
         if new.statements.ode_system != model.statements.ode_system:
             ode_changed = True
         model = new
         applied.append(name)
         ctx = f'{start} -> ' + ' -> '.join(applied)
-        code = guard(lambda: model.code, allowed=(), clause=f'code:{name}')
-        tm = _text_model(code, ctx)
-        compare_parameters(model, tm, ctx + '\n' + code)
-        sigma, used = check_semantics(model, tm, spec['k'], ctx + '\n' + code, classes)
-        dataset_consistency(model, tm, sigma, ctx + '\n' + code)
+        prev = last[0] if last is not None else tm0
+        where = f'@{name}[from ADVAN{prev.advan}-TRANS{prev.trans}]'
+        try:
+            code = guard(lambda: model.code, allowed=(), clause='code-generation')
+            tm = _text_model(code, ctx)
+            compare_parameters(model, tm, ctx + '\n' + code)
+            sigma, used = check_semantics(model, tm, spec['k'], ctx + '\n' + code, classes)
+            dataset_consistency(model, tm, sigma, ctx + '\n' + code)
+        except Violation as v:
+            # the oracle held before this step: the step is the call site of the violation
+            raise Violation(v.clause + where, observed=v.observed, expected=v.expected, detail=v.detail)
         evals += used
         last = (tm, sigma, code)
     if not applied:
@@ -393,9 +456,13 @@ def run_case(spec):
         with warnings.catch_warnings():
             warnings.simplefilter('ignore')
             path = os.path.join(d, 'run1.mod')
-            guard(pm.write_model, model, path, force=True, allowed=(), clause='write_model')
-            m2 = guard(pm.read_model, path, allowed=(), clause='read-back')
-            roundtrip(model, m2, sigma, spec['k'], ctx + '\n' + code)
+            where = f'@{applied[-1]}'
+            try:
+                guard(pm.write_model, model, path, force=True, allowed=(), clause='write_model')
+                m2 = guard(pm.read_model, path, allowed=(), clause='read-back')
+                roundtrip(model, m2, sigma, spec['k'], ctx + '\n' + code)
+            except Violation as v:
+                raise Violation(v.clause + where, observed=v.observed, expected=v.expected, detail=v.detail)
             evals += 1
     finally:
         shutil.rmtree(d, ignore_errors=True)
@@ -415,19 +482,22 @@ def _text_model(code, ctx):
 
 def roundtrip(model, m2, sigma, k, ctx):
     # parameters numerically equal in order
-    p1 = [(float(p.init), float(p.lower), float(p.upper), bool(p.fix)) for p in model.parameters]
-    p2 = [(float(p.init), float(p.lower), float(p.upper), bool(p.fix)) for p in m2.parameters]
-    if len(p1) != len(p2):
-        raise Violation('roundtrip:parameter-count', observed=len(p2), expected=len(p1), detail=ctx)
-    byname2 = {p.name: p for p in m2.parameters}
-    for p in model.parameters:
-        if p.name not in byname2:
-            raise Violation('roundtrip:parameter-name-lost', observed=sorted(byname2), expected=p.name, detail=ctx)
-        q = byname2[p.name]
-        if not (close(float(p.init), float(q.init), rtol=1e-12, atol=0) and _b(float(p.lower), float(q.lower)) and _b(float(p.upper), float(q.upper)) and p.fix == q.fix):
+    if len(model.parameters) != len(m2.parameters):
+        raise Violation('roundtrip:parameter-count', observed=len(m2.parameters), expected=len(model.parameters), detail=ctx)
+    rvp = set(model.random_variables.parameter_names)
+    # thetas are compared in order; names are the business of C04
+    th1 = [p for p in model.parameters if p.name not in rvp]
+    rvp2 = set(m2.random_variables.parameter_names)
+    th2 = [p for p in m2.parameters if p.name not in rvp2]
+    if len(th1) != len(th2):
+        raise Violation('roundtrip:theta-count', observed=len(th2), expected=len(th1), detail=ctx)
+    for p, q in zip(th1, th2):
+        # bounds of OMEGA/SIGMA elements cannot be written in a control stream (implicit in NONMEM)
+        bounds_ok = p.name in rvp or (_b(float(p.lower), float(q.lower)) and _b(float(p.upper), float(q.upper)))
+        if not (close(float(p.init), float(q.init), rtol=1e-12, atol=0) and bounds_ok and p.fix == q.fix):
             raise Violation('roundtrip:parameter', observed=repr(q), expected=repr(p), detail=ctx)
-    if list(model.random_variables.names) != list(m2.random_variables.names):
-        raise Violation('roundtrip:rv-names', observed=list(m2.random_variables.names), expected=list(model.random_variables.names), detail=ctx)
+    if len(model.random_variables.etas.names) != len(m2.random_variables.etas.names) or len(model.random_variables.epsilons.names) != len(m2.random_variables.epsilons.names):
+        raise Violation('roundtrip:rv-count', observed=list(m2.random_variables.names), expected=list(model.random_variables.names), detail=ctx)
     # dataset equal
     if model.dataset is not None:
         if m2.dataset is None:
@@ -454,14 +524,28 @@ def roundtrip(model, m2, sigma, k, ctx):
             if n not in inv2:
                 raise Violation('roundtrip:compartment-number-unknown', observed=cm2, expected=sigma, detail=ctx)
             rename[c] = inv2[n]
+    multi_dv = len(model.dependent_variables) > 1
     for kk in range(3):
         pt = modeleval.sample_point(model, k + kk)
-        pt2 = modeleval.Point(params=dict(pt.params), etas=dict(pt.etas), eps=dict(pt.eps), data=dict(pt.data), amounts={rename.get(c, c): v for c, v in pt.amounts.items()}, t=pt.t)
+        if multi_dv:
+            # the generated code selects the DV by DVID: evaluate the read-back model for the first DV
+            pt.data.setdefault('DVID', 1.0)
+        params2 = {q.name: float(q.init) for q in m2.parameters}
+        params2.update({q.name: pt.params[p.name] for p, q in zip(th1, th2)})
+        etas2 = dict(zip(m2.random_variables.etas.names, [pt.etas[n] for n in model.random_variables.etas.names]))
+        eps2 = dict(zip(m2.random_variables.epsilons.names, [pt.eps[n] for n in model.random_variables.epsilons.names]))
+        pt2 = modeleval.Point(params=params2, etas=etas2, eps=eps2, data=dict(pt.data), amounts={rename.get(c, c): v for c, v in pt.amounts.items()}, t=pt.t)
         mv1 = modeleval.evaluate(model, pt)
         mv2 = modeleval.evaluate(m2, pt2)
         bad = any(not (isinstance(v, float) and math.isfinite(v)) for v in mv1.y.values())
         if bad:
             continue
+        if multi_dv:
+            first = str(next(iter(model.dependent_variables)))
+            mv1.y = {first: mv1.y[first]}
+            if first not in mv2.y:
+                cand = [n for n in mv2.y]
+                mv2.y = {first: mv2.y[cand[0]]} if cand else {}
         res = modeleval.compare(mv1, mv2, rtol=1e-9, names=[n for n in mv1.vars if n in mv2.vars and n not in model.datainfo.names], rename=rename)
         if res is not None:
             what, obs, exp = res
